@@ -887,6 +887,72 @@ claim(
     "DESIGN.md §5.3 C20",
 )
 
+claim(
+    "C07",
+    "C07 DOES NOT HOLD on this tree: two known findings (known_findings.json) are reproduced by the oracle on the real pool "
+    "on every run and reported as KNOWN-FINDING; any other failure is a violation. Over the same model as C09 "
+    "(Model/Wake.lean) the part of the property that the wake protocol does guarantee is proved for all N, G and all "
+    "interleavings (names end in _partial): no wake-up is lost between enterSleep and the futex wait - a worker that is not "
+    "blocked and holds an epoch value older than its group's epoch never blocks as long as it holds that value, whatever "
+    "all threads do (C07_epoch_guard_partial), every epoch bump precedes its futex wake and makes the values held by the "
+    "group's workers old (C07_bump_makes_stale_partial, C07_expected_le_epoch_partial); whoever is blocked on a group futex "
+    "is a worker of that group in waitFor's timed wait and blocked with the epoch it holds (C07_sleeper_state_partial); a "
+    "futex wake for n >= 1 with a member blocked releases min(n, waiters) members, which continue in waitFor without a "
+    "time-out (C07_wake_releases_waiter_partial); with one thread per pool thread index and G <= 64 a set sleep-mask bit "
+    "means its worker is inside its sleep window and a successful claim hits such a worker, then bumps and wakes one "
+    "arbitrary member (C07_mask_sound_partial, C07_claim_targets_sleeper_partial). The first known finding is exhibited as theorems about the current code: "
+    "claimAndWakeOne returns thread 0 while its wake released thread 1, thread 0 stays blocked with its mask bit clear and "
+    "nobody has a pending operation (C07_claimed_worker_stays_parked); wakeRange(1) / cascadeWakeSeed(1) releases thread 1 "
+    "while the task sits in ring 0 (C07_range_wake_releases_wrong_member). The second finding (centralQueueNonEmpty_ hint "
+    "overwritten by a racing worker) involves the central queue, which is outside this model; it is exhibited by the oracle "
+    "only. Tie as C09. Oracle: real ThreadPool under the deterministic scheduler with virtual time, every worker parked, one "
+    "producer, 12 submission paths (schedule, scheduleBulk, TaskSet / ConcurrentTaskSet single and bulk, force-queued, "
+    "non-waiting parallel_for static / auto): every task must be started by a pool thread within 2 ms of virtual time and "
+    "without a backstop firing; component: a wake call on an all-parked wake state must release at least as many workers as "
+    "it claimed / counted.",
+    "Trusted: as C09. Not proved: that a submission path issues enough wake calls, that woken workers find the work "
+    "(rings, steal rings, central-queue hint are not modelled), that claimAndWakeOne finds a sleeper whenever one has its bit "
+    "set (component oracle only). The full property is false; what is claimed is the partial guarantees and the witnesses.",
+    "Lean 4 proof (partial guarantees + negative witnesses) + trace validation + schedule search reproducing known findings",
+    "DESIGN.md §5.1 C07",
+)
+
+claim(
+    "C09",
+    "The wake protocol of the pool (PoolWakeState + EpochWaiter (Linux futex variant) + the park sequence and loop guard of "
+    "ThreadPool::threadLoopImpl + the stop path 'PerThreadData::stop for every thread, then wakeAll') is modelled one action "
+    "per atomic operation / futex call (Model/Wake.lean) in the generic interleaving semantics: N >= 1 workers in wake groups "
+    "of G >= 1, any number of producers calling claimAndWakeOne / cascadeWake / wakeRange / cascadeWakeSeed at any time, "
+    "futex wakes releasing arbitrary waiters, time-outs and spurious futex returns as explicit actions. Proved for all N, G, "
+    "all interleavings and any number of threads below 2^31-1 (inductive invariant over Conc.Reachable): once some thread's "
+    "stop-all + wakeAll has returned (a state that is never left, C09_stop_permanent), every running_ flag is clear, no thread "
+    "is blocked on a futex so that no timeout / spurious action is even enabled (C09_no_worker_parked), a worker between its "
+    "running re-check and its futex wait holds a stale epoch and cannot block (C09_futex_wait_cannot_block), and every "
+    "worker that has not left its loop has an enabled action, each of its own actions decreases a measure bounded by 6, and no "
+    "other thread's action changes its state (C09_stop_completes): all workers leave their loops without any time-out; a "
+    "worker that left its loop has no further actions (C09_exited_is_final). The pre-repair wakeAll (futex wake only for "
+    "groups with a non-empty sleep mask) is kept as protoOld with the proved witness C09_old_wakeAll_leaves_worker_parked "
+    "(stop returned, a claimed-but-not-woken worker blocked with its bit clear, nobody has a pending operation). Tie: the "
+    "real PoolWakeState / EpochWaiter / PerThreadData::stop run under the deterministic scheduler with named atomics "
+    "(harness/conc/c09_wakestate.cpp: random worker / producer / stop scenarios incl. EINTR injection) and every atomic and "
+    "futex event is replayed through Conc.exec of the model (field, operation, operand, observed value, declared memory "
+    "order, woken set); when dispenso carries the wake.* observation hooks (deliver/0001-verif-hooks-wake.patch) the same is "
+    "done for the real ThreadPool (real worker loop and real ~ThreadPool / resize stop path, harness/conc/c07_wake.cpp). "
+    "Oracle (independent of the model): destructor, resize() and setSignalingWake() of the real pool with workers busy, "
+    "spinning, parking or parked, and stop + wakeAll on the component, must finish without any futex wait ending by its "
+    "100 ms backstop in virtual time, and every worker must have left its loop.",
+    "Trusted: Lean kernel; the hand-written model (checked against the code on the explored schedules only); dsched's "
+    "futex / virtual-time model; sequential consistency (declared orders are compared, their sufficiency is C10); the "
+    "Linux EpochWaiter only. The worker's 8-line park sequence is replicated in the component harness; the real loop is "
+    "exercised by c07_wake.cpp (always as oracle, as trace tie only with the hooks patch applied). Wake-API calls made by a "
+    "pool thread from inside a task body are replayed as calls of a separate model thread. The model cannot exhibit: epoch "
+    "wrap-around (2^32 bumps between a worker's read and its wait), more than 2^31-2 threads, task bodies that never "
+    "return, a pool in polling mode (setSignalingWake(false): workers use timed polling, not this protocol), join() itself "
+    "(the theorem ends at 'the worker thread has no further actions').",
+    "Lean 4 proof (inductive invariant over all interleavings) + trace validation under a deterministic scheduler",
+    "DESIGN.md §5.1 C09",
+)
+
 ALL = ["C%02d" % i for i in range(1, 49)]
 for _p in ALL:
     if _p not in CLAIMED:
